@@ -126,6 +126,13 @@ class Index:
                 except Exception:
                     m.tree = ast.parse(m.source, filename=m.path)
                     self.inlined_helpers = [h for h in self.inlined_helpers if h[1].split("::")[0] != mn]
+        self.expanded_constants: list = []
+        if os.environ.get("VERIF_N6", "1") == "1":
+            from .normal import expand_module_constants
+            try:
+                self.expanded_constants = expand_module_constants(self.modules, known=rule_vocabulary())
+            except Exception:
+                self.expanded_constants = []
         for m in self.modules.values():
             m.normal_stats = normalise(m.tree)
             for node in ast.walk(m.tree):
